@@ -422,8 +422,10 @@ int scan_from_with(var input, int pos, const char* fmt, var args) {
         int err = format_from(input, pos, fmt_buf, &tmp, &off);
         if (err < 1) { throw(FormatError, "Unable to input Int!"); }
         pos += off;
-        /* without a length modifier an int was stored: give it its sign back */
-        if (strchr("di", *fmt) and not strpbrk(fmt_buf, "hljztqL")) { tmp = (int)tmp; }
+        /* without a 64-bit length modifier an int (h: a short, hh: a char) was stored: give it its sign back */
+        if (strchr("di", *fmt) and not strpbrk(fmt_buf, "ljztqL")) {
+          tmp = strstr(fmt_buf, "hh") ? (signed char)tmp : strchr(fmt_buf, 'h') ? (short)tmp : (int)tmp;
+        }
         assign(a, $I(tmp));
       }
       
